@@ -1,8 +1,175 @@
 /-
-  C03 — property theorems (only `theorem C03_*` statements and non-vacuity examples live here;
-  helper lemmas go to CedarGoProofs/Lemmas/).
+  C03 — Entity membership `in` is reflexive-transitive reachability.
+  `entityInOne`/`entityInSet` are the transcriptions of the work-list search in
+  internal/eval/evalers.go (candidate, todo stack, known set, four pruning tests).  The theorems hold
+  for EVERY store: cyclic hierarchies, self-parents, parents not in the store, absent start/target;
+  and for every order in which the parents of an entity are enumerated (Go map order).
 -/
+import CedarGoProofs.Lemmas.C03
 import CedarGo.Model.Fold
 namespace CedarGo
+
+/-- The search never runs out of the fuel `|store| + 1` the model gives it: it terminates on every graph. -/
+theorem C03_entityInOne_total (es : Entities) (a b : UID) : ∃ r, entityInOne es a b = some r := by
+  unfold entityInOne entityInOneFuel
+  split
+  · exact ⟨true, rfl⟩
+  · obtain ⟨r, hr, _⟩ := inLoop_init es a (fun ps => ps.contains b) (by simp)
+    exact ⟨r, hr⟩
+
+/-- `a in b` is true exactly when `b` is reachable from `a` (reflexively) through present entities. -/
+theorem C03_entityInOne_correct (es : Entities) (a b : UID) : entityInOne es a b = some true ↔ Reach es a b := by
+  unfold entityInOne entityInOneFuel
+  split
+  · rename_i h
+    have : a = b := by simpa using h
+    subst this
+    simp [Reach.refl]
+  · rename_i hne
+    have hab : a ≠ b := by simpa using hne
+    obtain ⟨r, hr, hiff⟩ := inLoop_init es a (fun ps => ps.contains b) (by simp)
+    rw [hr]
+    simp only [Option.some.injEq]
+    rw [hiff]
+    constructor
+    · rintro ⟨x, d, hx, hg, hb⟩
+      exact hx.snoc hg (by simpa using hb)
+    · intro h
+      rcases h.last with heq | ⟨x, d, hx, hg, hb⟩
+      · exact absurd heq hab
+      · exact ⟨x, d, hx, hg, by simpa using hb⟩
+
+theorem C03_entityInSet_total (es : Entities) (a : UID) (S : List UID) : ∃ r, entityInSet es a S = some r := by
+  unfold entityInSet entityInSetFuel
+  split
+  · exact ⟨true, rfl⟩
+  · obtain ⟨r, hr, _⟩ := inLoop_init es a (fun ps => ps.any (fun p => S.contains p)) (by simp)
+    exact ⟨r, hr⟩
+
+/-- `a in [b1..bn]` is true exactly when some `bi` is reachable from `a`. -/
+theorem C03_entityInSet_correct (es : Entities) (a : UID) (S : List UID) :
+    entityInSet es a S = some true ↔ ∃ b ∈ S, Reach es a b := by
+  unfold entityInSet entityInSetFuel
+  split
+  · rename_i h
+    have : a ∈ S := by simpa using h
+    simp only [true_iff]
+    exact ⟨a, this, .refl a⟩
+  · rename_i hne
+    have haS : a ∉ S := by simpa using hne
+    obtain ⟨r, hr, hiff⟩ := inLoop_init es a (fun ps => ps.any (fun p => S.contains p)) (by simp)
+    rw [hr]
+    simp only [Option.some.injEq]
+    rw [hiff]
+    constructor
+    · rintro ⟨x, d, hx, hg, hb⟩
+      simp only [List.any_eq_true, List.contains_iff_mem] at hb
+      obtain ⟨p, hp, hpS⟩ := hb
+      exact ⟨p, hpS, hx.snoc hg hp⟩
+    · rintro ⟨b, hbS, h⟩
+      rcases h.last with heq | ⟨x, d, hx, hg, hb⟩
+      · subst heq; exact absurd hbS haS
+      · exact ⟨x, d, hx, hg, by simp only [List.any_eq_true, List.contains_iff_mem]; exact ⟨b, hb, hbS⟩⟩
+
+/-- The `in` operator on an entity right-hand side: never a panic, and true iff reachable. -/
+theorem C03_in_operator_entity (env : Env) (a b : UID) :
+    (∃ r, doIn env a (uidVal b) = .ok (.bool r)) ∧
+    (doIn env a (uidVal b) = .ok (.bool true) ↔ Reach env.entities a b) := by
+  unfold doIn uidVal
+  obtain ⟨r, hr⟩ := C03_entityInOne_total env.entities a b
+  have hc := C03_entityInOne_correct env.entities a b
+  simp only [hr] at hc ⊢
+  refine ⟨⟨r, rfl⟩, ?_⟩
+  rw [← hc]; simp
+
+/-- The `in` operator on a set of entities: true iff some member is reachable. -/
+theorem C03_in_operator_set (env : Env) (a : UID) (S : List UID) :
+    (∃ r, doIn env a (.set (S.map uidVal)) = .ok (.bool r)) ∧
+    (doIn env a (.set (S.map uidVal)) = .ok (.bool true) ↔ ∃ b ∈ S, Reach env.entities a b) := by
+  have hmap : (S.map uidVal).mapM toEntity = (.ok S : Except Err (List UID)) := by
+    induction S with
+    | nil => rfl
+    | cons u us ih =>
+      simp only [List.map_cons, List.mapM_cons, ih]
+      simp [uidVal, toEntity, bind, Except.bind, pure, Except.pure]
+  unfold doIn
+  simp only [hmap]
+  obtain ⟨r, hr⟩ := C03_entityInSet_total env.entities a S
+  have hc := C03_entityInSet_correct env.entities a S
+  simp only [hr] at hc ⊢
+  refine ⟨⟨r, rfl⟩, ?_⟩
+  rw [← hc]; simp
+
+/-- A non-entity on the right of `in` (other than a set) is a type error; so is a set with a non-entity member. -/
+theorem C03_in_operator_type_error (env : Env) (a : UID) (v : Value)
+    (h : ∀ t i, v ≠ .entity t i) (hs : ∀ xs, v ≠ .set xs) : doIn env a v = .error .type := by
+  unfold doIn
+  cases v <;> simp_all
+
+/-- The scope form `principal in E` is the operator applied to the variable (by construction of
+    `PolicyToNode`), and `is T in E` means `is T` and `in E`. -/
+theorem C03_scope_in_agrees (v : Var) (e : UID) :
+    scopeToExpr v (.in_ e) = .binop .in_ (.var v) (.lit (uidVal e)) := rfl
+
+theorem C03_scope_isIn_agrees (v : Var) (ty : String) (e : UID) (env : Env) :
+    evalBool (scopeToExpr v (.isIn ty e)) env =
+      evalBool (.binop .and (.is (.var v) ty) (.binop .in_ (.var v) (.lit (uidVal e)))) env := by
+  unfold evalBool scopeToExpr
+  simp only [eval]
+  cases hv : eval (.var v) env with
+  | error k => simp [bind, Except.bind]
+  | ok x =>
+    cases x <;> simp [bind, Except.bind, toEntity, toBool]
+    rename_i t i
+    by_cases hty : t = ty
+    · simp [hty]
+      cases hd : doIn env (ty, i) (uidVal e) with
+      | error k => simp
+      | ok w =>
+        obtain ⟨r, hr⟩ := (C03_in_operator_entity env (ty, i) e).1
+        rw [hr] at hd; cases hd; simp [toBool]
+    · simp [hty]
+
+/-- Reachability, hence `in`, does not depend on the order in which parents are listed. -/
+theorem C03_parent_order_irrelevant (es es' : Entities)
+    (h : ∀ u, (es.get u).isSome = (es'.get u).isSome ∧
+      ∀ d d', es.get u = some d → es'.get u = some d' → ∀ p, p ∈ d.parents ↔ p ∈ d'.parents)
+    (a b : UID) : entityInOne es a b = entityInOne es' a b := by
+  have hR : ∀ (e1 e2 : Entities), (∀ u, (e1.get u).isSome = (e2.get u).isSome ∧
+      ∀ d d', e1.get u = some d → e2.get u = some d' → ∀ p, p ∈ d.parents ↔ p ∈ d'.parents) →
+      ∀ x y, Reach e1 x y → Reach e2 x y := by
+    intro e1 e2 h12 x y hr
+    induction hr with
+    | refl => exact .refl _
+    | @step a p b d hg hp _ ih =>
+      have h1 := (h12 a).1
+      rw [hg] at h1
+      cases hg2 : e2.get a with
+      | none => rw [hg2] at h1; cases h1
+      | some d' => exact .step hg2 (((h12 a).2 d d' hg hg2 p).mp hp) ih
+  have hsymm : ∀ u, (es'.get u).isSome = (es.get u).isSome ∧
+      ∀ d d', es'.get u = some d → es.get u = some d' → ∀ p, p ∈ d.parents ↔ p ∈ d'.parents :=
+    fun u => ⟨(h u).1.symm, fun d d' h1 h2 p => ((h u).2 d' d h2 h1 p).symm⟩
+  obtain ⟨r, hr⟩ := C03_entityInOne_total es a b
+  obtain ⟨r', hr'⟩ := C03_entityInOne_total es' a b
+  have c1 := C03_entityInOne_correct es a b
+  have c2 := C03_entityInOne_correct es' a b
+  have hiff : Reach es a b ↔ Reach es' a b := ⟨hR es es' h a b, hR es' es hsymm a b⟩
+  rw [hr, hr']
+  rw [hr] at c1; rw [hr'] at c2
+  have : (r = true ↔ r' = true) := by
+    constructor
+    · intro h1; subst h1; simpa using c2.mpr (hiff.mp (c1.mp rfl))
+    · intro h1; subst h1; simpa using c1.mpr (hiff.mpr (c2.mp rfl))
+  cases r <;> cases r' <;> simp_all
+
+/-! ### Non-vacuity: a cyclic store with a dangling parent -/
+
+def exStore : Entities :=
+  [(("G", "a"), ⟨[("G", "b"), ("G", "gone")], [], []⟩), (("G", "b"), ⟨[("G", "a"), ("G", "c")], [], []⟩)]
+
+example : entityInOne exStore ("G", "a") ("G", "c") = some true := by decide +kernel
+example : entityInOne exStore ("G", "a") ("G", "zzz") = some false := by decide +kernel
+example : Reach exStore ("G", "a") ("G", "c") := (C03_entityInOne_correct _ _ _).mp (by decide +kernel)
 
 end CedarGo
